@@ -115,51 +115,75 @@ def _refuses_first(mod, fn):
     return False
 
 
+def unit_op_table(repo, dunder):
+    """decision table of Unit.__mul__ / Unit.__truediv__ over abstract units: {(a, b): (rec_a, rec_b, Outcome)}.
+    A returned unit is a record built from the arguments of the modelled `Unit(...)` constructor call (or the record
+    of the operand that `.copy()` was called on); every abstract unit lives in a registry of its own, so the record
+    also tells whose registry the result was created in."""
+    from engine.dtable import Rec, Tok, decide
+
+    uo = repo.mod(UO)
+    TEMP, ANG, LOGD, ONE_D, LEN = Tok("temperature"), Tok("angle"), Tok("logarithmic"), Tok("dimensionless"), Tok("length")
+    ONE_EXPR = Tok("sympy_one")
+
+    def unit(name, dims, off, dimless=False, scale=1.0, expr=None):
+        return Rec(name, base_value=scale, base_offset=off, dimensions=dims, expr=expr if expr is not None else name, is_Unit=True, is_dimensionless=dimless, registry=Tok("registry-of-" + name), __classes__=("Unit",))
+
+    def make_unit(expr=None, base_value=None, base_offset=0.0, dimensions=None, registry=None, latex_repr=None):
+        return Rec("<result>", base_value=base_value, base_offset=base_offset, dimensions=dimensions, expr=expr, registry=registry, __classes__=("Unit",))
+
+    glob = {"temperature": TEMP, "angle": ANG, "logarithmic": LOGD, "dimensionless": ONE_D, "sympy_one": ONE_EXPR, "Unit": make_unit}
+    U = {
+        "degC": unit("degC", TEMP, -273.15), "degF": unit("degF", TEMP, -459.67, scale=5 / 9), "K": unit("K", TEMP, 0.0), "delta_degC": unit("delta_degC", TEMP, 0.0),
+        "lat": unit("lat", ANG, 90.0), "rad": unit("radian", ANG, 0.0), "m": unit("m", LEN, 0.0), "one": unit("dimensionless", ONE_D, 0.0, dimless=True, expr=ONE_EXPR), "percent": unit("percent", ONE_D, 0.0, dimless=True, scale=0.01),
+    }
+    fn = uo.func(f"Unit.{dunder}")
+    rows = {}
+    for an, a_ in U.items():
+        for bn, b_ in U.items():
+            rows[(an, bn)] = (a_, b_, decide(uo, fn, [a_, b_], glob))
+    return rows
+
+
 def refusal(repo, res):
     r2 = res.rule("C08-R2", "every multiplicative / power unit rule reaches an offset refusal (InvalidUnitOperation) before building a unit", floor=9)
     uo = repo.mod(UO)
     arr = repo.mod(ARR)
+    from engine.dtable import Rec
+
     # Unit * Unit and Unit / Unit: decision table over abstract units (folded tests, helpers followed): a unit with an
     # offset may be multiplied / divided only by a dimensionless partner (the offset then survives) - every other
     # combination raises InvalidUnitOperation; units without offsets never raise for that reason.
-    from engine.dtable import Rec, Tok, decide
-
-    t_ = Tables(repo)
-    TEMP, recs, other = _temperature_universe(t_)
-    ANG, LOGD, ONE_D = Tok("angle"), Tok("logarithmic"), Tok("dimensionless")
-    glob = {"temperature": TEMP, "angle": ANG, "logarithmic": LOGD}
-
-    def unit(name, dims, off, dimless=False, scale=1.0):
-        return Rec(name, base_value=scale, base_offset=off, dimensions=dims, expr=name, is_Unit=True, is_dimensionless=dimless, registry=Tok("registry"), __classes__=("Unit",))
-
-    byname = {r.name: r for r in recs}
-    U = {
-        "degC": unit("degC", TEMP, -273.15), "degF": unit("degF", TEMP, -459.67, scale=5 / 9), "K": unit("K", TEMP, 0.0), "delta_degC": unit("delta_degC", TEMP, 0.0),
-        "lat": unit("lat", ANG, 90.0), "rad": unit("radian", ANG, 0.0), "m": unit("m", Tok("length"), 0.0), "one": unit("dimensionless", ONE_D, 0.0, dimless=True), "percent": unit("percent", ONE_D, 0.0, dimless=True, scale=0.01),
-    }
     guarded = {}
     for dunder, op in (("__mul__", ast.Mult), ("__truediv__", ast.Div)):
         fn = uo.func(f"Unit.{dunder}")
         res.fn(fn)
-        bad = []
-        n = 0
-        for an, a_ in U.items():
-            for bn, b_ in U.items():
-                out = decide(uo, fn, [a_, b_], glob)
-                n += 1
-                has_off = a_.attrs["base_offset"] != 0.0 or b_.attrs["base_offset"] != 0.0
-                if dunder == "__mul__":
-                    allowed = (a_.attrs["base_offset"] != 0.0 and b_.attrs["is_dimensionless"]) or (b_.attrs["base_offset"] != 0.0 and a_.attrs["is_dimensionless"])
-                else:
-                    allowed = a_.attrs["base_offset"] != 0.0 and b_.attrs["is_dimensionless"] and b_.attrs["base_offset"] == 0.0
-                refused = out.kind == "raise" and out.value == "InvalidUnitOperation"
-                if has_off and not allowed and not refused:
-                    bad.append(f"{an} {'*' if op is ast.Mult else '/'} {bn} returns a unit")
-                if not has_off and refused:
-                    bad.append(f"{an} {'*' if op is ast.Mult else '/'} {bn} is refused")
+        bad, wrong_off = [], []
+        rows = unit_op_table(repo, dunder)
+        sym = "*" if op is ast.Mult else "/"
+        for (an, bn), (a_, b_, out) in rows.items():
+            oa, ob = a_.attrs["base_offset"], b_.attrs["base_offset"]
+            has_off = oa != 0.0 or ob != 0.0
+            if dunder == "__mul__":
+                allowed = (oa != 0.0 and b_.attrs["is_dimensionless"]) or (ob != 0.0 and a_.attrs["is_dimensionless"])
+            else:
+                allowed = oa != 0.0 and b_.attrs["is_dimensionless"] and ob == 0.0
+            refused = out.kind == "raise" and out.value == "InvalidUnitOperation"
+            if has_off and not allowed and not refused:
+                bad.append(f"{an} {sym} {bn} returns a unit")
+            if not has_off and refused:
+                bad.append(f"{an} {sym} {bn} is refused")
+            if has_off and allowed and out.kind == "return":
+                # the reading keeps its zero point: 1 * degC is degC, not kelvin-with-a-Celsius-name
+                want = oa if oa != 0.0 else ob
+                got = out.value.attrs.get("base_offset") if isinstance(out.value, Rec) else None
+                if got != want:
+                    wrong_off.append(f"{an} {sym} {bn} has offset {got}, expected {want}")
+        n = len(rows)
         guarded[op] = not bad
         res.check(not bad, f"Unit.{dunder}", fn.where(), f"Unit.{dunder} decision table over {n} unit pairs: an offset unit (Celsius, Fahrenheit, lat/lon) may only be combined with a dimensionless partner, everything else must raise InvalidUnitOperation" + (f" - {bad[0]}" if bad else ""), "refusal", bad[:4], rid=r2)
         res.check(not [x for x in bad if "returns" in x], f"Unit.{dunder}:allowance", fn.where(), "an offset may survive multiplication/division only when the other factor is dimensionless", found=bad[:3], rid=r2)
+        res.check(not wrong_off, f"Unit.{dunder}:surviving-offset", fn.where(), f"where an offset unit is combined with a dimensionless partner, the result keeps that unit's zero point (offset)" + (f" - {wrong_off[0]}" if wrong_off else ""), "the offset of the offset-carrying operand", wrong_off[:4], rid=r2)
     fnp = uo.func("Unit.__pow__")
     res.fn(fnp)
     guarded[ast.Pow] = _offset_guarded(fnp)[0]
@@ -400,4 +424,5 @@ MUTANTS = [
     Mutant("muldiv-guard-one-sided", ARR, "unyt_array.__array_ufunc__", "                    or u1.base_offset\n                    and u1.dimensions is temperature\n", "", ("C08-R4",)),
     Mutant("diff-offset-allowed", AF, "diff_helper", "        if u.base_offset:", "        if False:", ("C08-R4",)),
     Mutant("twin-row-spelling", LUT, None, '("degC", (1.0, dimensions.temperature, -273.15,', '("degC", (1.0, dimensions.temperature, -2.7315e2,', (), benign=True),
+    Mutant("mul-offset-from-dimensionless-side", UO, "Unit.__mul__", "            if u.dimensions in (temperature, angle) and self.is_dimensionless:\n                base_offset = u.base_offset", "            if u.dimensions in (temperature, angle) and self.is_dimensionless:\n                base_offset = self.base_offset", ("C08-R2",)),
 ]
